@@ -456,7 +456,54 @@ def extract_reduce_summary(src):
     return bool(i_loop is not None and i_sum is not None and i_store is not None and i_loop < i_sum < i_store)
 
 
-@generator('RunFacts', [REL, SIM])
+# --- process-level state shared by everything that runs in one process ------------
+
+PKG_FILES = ['starsim/' + f for f in ('arrays.py', 'calibration.py', 'demographics.py', 'disease.py', 'distributions.py', 'interventions.py', 'loop.py',
+                                      'modules.py', 'networks.py', 'parameters.py', 'people.py', 'products.py', 'results.py', 'run.py', 'samples.py',
+                                      'settings.py', 'sim.py', 'time.py', 'utils.py', '__init__.py')]
+_MUT_CALLS = ('dict', 'list', 'set', 'sc.odict', 'sc.objdict', 'sc.dictobj', 'defaultdict', 'collections.defaultdict', 'OrderedDict', 'collections.OrderedDict',
+              'np.zeros', 'np.empty', 'np.array', 'np.ones', 'np.full')
+
+
+def _is_mutable_container(v):
+    return isinstance(v, (ast.Dict, ast.List, ast.Set, ast.ListComp, ast.DictComp, ast.SetComp)) or \
+        (isinstance(v, ast.Call) and unparse(v.func) in _MUT_CALLS)
+
+
+def extract_process_state(src):
+    """ Containers that live as long as the PROCESS and are shared by every sim that runs in it -- the channel through which one
+        member of a serial loop / of a worker could reach the next:  class attributes bound to a mutable container (one object for
+        all instances), memoising decorators, and module-level containers (today: constant look-up tables).  Sim.init cannot reset
+        any of them. """
+    import os
+    cls_level = []; mod_level = []; memo = []
+    files = [f for f in PKG_FILES if os.path.exists(os.path.join(src.repo, f))]
+    extra = sorted('starsim/' + f for f in os.listdir(os.path.join(src.repo, 'starsim')) if f.endswith('.py') and 'starsim/' + f not in PKG_FILES and f != 'version.py')
+    for rel in files + extra:
+        t = src.tree(rel); base = rel.split('/')[-1]
+        for n in ast.walk(t):
+            if isinstance(n, ast.ClassDef):
+                for st in n.body:
+                    tg = v = None
+                    if isinstance(st, ast.Assign): tg, v = st.targets[0], st.value
+                    elif isinstance(st, ast.AnnAssign) and st.value is not None: tg, v = st.target, st.value
+                    if v is not None and _is_mutable_container(v):
+                        cls_level.append(f'{base}:{n.name}.{unparse(tg)}')
+            if isinstance(n, (ast.FunctionDef, ast.AsyncFunctionDef)):
+                for d in n.decorator_list:
+                    u = unparse(d)
+                    if 'lru_cache' in u or u.split('(')[0].split('.')[-1] in ('cache', 'cached_property', 'memoize', 'memoized'):
+                        memo.append(f'{base}:{n.name}@{u}')
+                for st in ast.walk(n):     # `global x` rebinding of module state from inside a function
+                    if isinstance(st, ast.Global):
+                        memo.append(f"{base}:{n.name}:global {','.join(st.names)}")
+        for st in t.body:
+            if isinstance(st, ast.Assign) and _is_mutable_container(st.value) and unparse(st.targets[0]) != '__all__':
+                mod_level.append(f'{base}:{unparse(st.targets[0])}')
+    return sorted(cls_level), sorted(mod_level), sorted(memo)
+
+
+@generator('RunFacts', [REL, SIM, 'starsim/demographics.py', 'starsim/modules.py', 'starsim/disease.py', 'starsim/networks.py', 'starsim/people.py'])
 def gen_run_facts(src):
     expr = extract_single_run(src)
     rs_single, rs_list, serial_copies = extract_multi_run(src)
@@ -469,6 +516,7 @@ def gen_run_facts(src):
     seeds_first = extract_sim_init(src)
     how_table, sum_reads, sum_writes = extract_summarize(src)
     red_sum = extract_reduce_summary(src)
+    cls_level, mod_level, memo = extract_process_state(src)
     lstr = lambda x: '"' + x.replace('\\', '\\\\').replace('"', '\\"') + '"'
     bounds_fn = {'none': 'match b with | none => defaultBounds | some x => x',
                  'falsy': 'match b with | none => defaultBounds | some x => if x = 0 then defaultBounds else x'}[bkind]
@@ -524,6 +572,12 @@ def summarizeSelfReads : List String := [{', '.join(lstr(x) for x in sum_reads)}
 def summarizeSelfWrites : List String := [{', '.join(lstr(x) for x in sum_writes)}]
 /-- `MultiSim.reduce`: `reduced_sim.summarize()` after the statistics loop, then `self.summary = reduced_sim.summary` -/
 def reduceSummaryRecomputed : Bool := {b(red_sum)}
+/-- class attributes of the package bound to a mutable container: ONE object shared by all instances in a process -/
+def classLevelMutables : List String := [{', '.join(lstr(x) for x in cls_level)}]
+/-- memoising decorators / `global` rebinding inside functions -/
+def processMemos : List String := [{', '.join(lstr(x) for x in memo)}]
+/-- module-level containers (constant look-up tables today) -/
+def moduleLevelContainers : List String := [{', '.join(lstr(x) for x in mod_level)}]
 end StarsimModel.Gen
 '''
     facts = dict(reseed_expr=expr, reseed_default_single=rs_single, reseed_default_list=rs_list, serial_copies=serial_copies,
@@ -531,5 +585,6 @@ end StarsimModel.Gen
                  default_bounds=str(k), default_quantiles=[str(qlow), str(qhigh)],
                  bounds_default_test=bkind, quantiles_default_test=qkind, parallel_wraps_list=par_list, do_run_false_skips_init=no_init,
                  init_seeds_global_first=seeds_first, summarize_how=[list(x) for x in how_table], summarize_self_reads=sum_reads,
-                 summarize_self_writes=sum_writes, reduce_summary_recomputed=red_sum)
+                 summarize_self_writes=sum_writes, reduce_summary_recomputed=red_sum,
+                 class_level_mutables=cls_level, process_memos=memo, module_level_containers=mod_level)
     return body, facts
